@@ -333,6 +333,15 @@ def query_scope_rules(fb, ctx):
     to_ids = {strip(f["e"])["res"]["id"] for st in find_all(bh["body"], lambda z: z.get("k") == "struct" and hirq.res_path(z["res"]).endswith("authorizer::Authorizer")) for f in st["fields"] if f["name"] == "token_origins" and is_local(strip(f["e"]))}
     asg = [a for a in find_all(bh["body"], lambda z: z.get("k") == "assign" and hirq.is_lid(strip(z["lhs"]), to_ids))]
     ok = len(asg) == 1 and "Scope::Previous" in estr(asg[0]["rhs"]).replace("token::", "") and "block_count" in estr(asg[0]["rhs"])
+    if not ok and not asg:
+        # not assigned to a mutable variable but produced as a value (`let (blocks, token_origins) = if let Some(token) = .. { ..;
+        # (Some(blocks), from_scopes(&[Previous], .., token.block_count(), ..)) } else { (None, default) }`): the one from_scopes call of
+        # build_inner has these arguments, and the stored field depends on it
+        fsc = [c for c in find_all(bh["body"], lambda z: z.get("k") == "call" and z.get("f", {}).get("k") == "path" and (z["f"]["res"].get("path") or "").endswith("TrustedOrigins::from_scopes"))]
+        stored = [s_ for _, s_ in mirq.aggregates(bi, r"authorizer::Authorizer$")]
+        lv = mirq.operand_leaves(fb, bi, mirq.agg_field(stored[0], "token_origins")) if stored else set()
+        fsc = [c for c in fsc if len(c.get("args", [])) >= 3 and "Scope::Previous" in estr(c["args"][0]).replace("token::", "") and "block_count" in estr(c["args"][2])]
+        ok = len(fsc) == 1 and any("from_scopes" in l for l in lv) and any("block_count" in l for l in lv)
     ctx.check(ok, "QUERYSCOPE", "token_origins = `previous` evaluated at block_count", "QUERYSCOPE|token_origins", f"token_origins = {estr(asg[0]['rhs']) if asg else None}", f"{bi['file']}:{bi['line']}")
 
 
